@@ -147,6 +147,7 @@ struct run_opts {
   bool check_c02 = true;   // scan output
   bool check_c10 = true;   // shape / statistics / memory accounting
   bool check_c08 = false;  // fault enumeration around every mutating operation
+  bool c08_fatal = true;   // false: run the fault loops but report only a lock left held (C14's use)
   bool k1_exclusion = true;
   bool collect = false;    // collect class histograms
 };
